@@ -151,7 +151,14 @@ func (e *zzScanExecutor) ExecuteRangeScan(ctx context.Context, r *proto.RangeSca
 // in the middle of it (mode 2) — and a caller that reads until the channel is closed. The channel is always
 // closed (the caller never hangs), nothing panics, and without a failure every record arrives exactly once
 // in global key order.
-func ZZClientScan(ns, single, mode int) {
+func ZZClientScan(ns, single, mode int) { zzClientScan(ns, single, mode, 0) }
+
+// ZZClientScanCancel (C20): the same scan whose caller cancels its context after reading the first record and
+// then drains the channel: a result stream that ends WITHOUT an error result must be the complete result —
+// a cancelled scan may stop early, but it must say so.
+func ZZClientScanCancel(ns, single int) { zzClientScan(ns, single, 0, 1) }
+
+func zzClientScan(ns, single, mode, cancelAfterFirst int) {
 	sm := &zzSM{}
 	for i := 0; i < ns; i++ {
 		sm.ids = append(sm.ids, int64(i))
@@ -163,14 +170,19 @@ func ZZClientScan(ns, single, mode int) {
 	ex := &zzScanExecutor{zzListExecutor: zzListExecutor{fail: fail}, failOpen: mode == 1}
 	c := &clientImpl{shardManager: sm, executor: ex, ctx: context.Background()}
 	var ch <-chan GetResult
+	ctx, cancel := context.WithCancel(context.Background())
+	ex.ctx = ctx
 	if single == 1 {
-		ch = c.RangeScan(context.Background(), "a", "z", PartitionKey("pk"))
+		ch = c.RangeScan(ctx, "a", "z", PartitionKey("pk"))
 	} else {
-		ch = c.RangeScan(context.Background(), "a", "z")
+		ch = c.RangeScan(ctx, "a", "z")
 	}
 	n, errs := 0, 0
 	last := ""
 	for r := range ch {
+		if cancelAfterFirst == 1 && n+errs == 0 {
+			cancel()
+		}
 		if r.Err != nil {
 			errs++
 			continue
@@ -181,6 +193,17 @@ func ZZClientScan(ns, single, mode int) {
 		last = r.Key
 		n++
 	}
+	if cancelAfterFirst == 1 {
+		want := 3 * ns
+		if single == 1 {
+			want = 3
+		}
+		vAssert("a-scan-that-ends-without-an-error-is-complete", errs > 0 || n == want)
+		cancel()
+		vReach("end")
+		return
+	}
+	cancel()
 	if mode == 0 {
 		want := 3 * ns
 		if single == 1 {
